@@ -2,6 +2,22 @@
    No proofs in this file (the model must keep running when a proof breaks). *)
 From Juniper Require Import Common.Base.
 
+(* ---- allocation ----
+   make([]T, n) panics (recoverably: "makeslice: len out of range") when n < 0 or when n elements
+   exceed the maximum allocation.  [alloc_max] is the model's bound: lengths between 2^26 and 2^47
+   are never requested by the harness: below, allocation succeeds; above, make panics for every
+   element type of size >= 1 on a 64-bit platform (maxAlloc = 2^48 bytes). *)
+Definition alloc_max : Z := 2^47.
+
+(* two's-complement wrap-around of 64-bit int arithmetic *)
+Definition wrap64 (x : Z) : Z := (x + 2^63) mod 2^64 - 2^63.
+
+(* make([]T, n) returns normally *)
+Definition make_ok (n : Z) : bool := (0 <=? n) && (n <=? alloc_max).
+
+(* the run-time panic of make; Common/Base.v has no dedicated class *)
+Definition PAlloc : pclass := POther.
+
 Section Deque.
   Context {T : Type}.
   Variable zero : T.
@@ -37,26 +53,53 @@ Section Deque.
     else if front d <=? back d then zslice (buf d) (front d) (back d + 1)
     else zslice (buf d) (front d) (cap d) ++ zslice (buf d) 0 (back d + 1).
 
-  (* make([]T, n) then copy: copy stops at the shorter of the two. *)
-  Definition resize (n : Z) (d : deque) : deque :=
+  (* resize(n): oldLen := d.Len(); newA := make([]T, n) -- which panics ("makeslice: len out of
+     range", a recoverable run-time panic) BEFORE any field of d is written, so the deque is
+     untouched; then copy (copy stops at the shorter of the two) and only then the four field
+     writes a, front, back, gen. *)
+  Definition resize (n : Z) (d : deque) : result deque :=
     let old := len d in
+    if negb (make_ok n) then Panic PAlloc else
     let w := window d in
-    mkDeque (Some (firstn (Z.to_nat n) (w ++ zrepeat zero n))) 0 (old - 1) (gen d + 1).
+    Ok (mkDeque (Some (firstn (Z.to_nat n) (w ++ zrepeat zero n))) 0 (old - 1) (gen d + 1)).
 
-  Definition maybe_expand (d : deque) : deque :=
-    if len d =? cap d then resize (Z.max minSize (cap d * growMul)) d else d.
+  (* xmath.Max(minSize, len(d.a)*2): the product is an int *)
+  Definition maybe_expand (d : deque) : result deque :=
+    if len d =? cap d then resize (Z.max minSize (wrap64 (cap d * growMul))) d else Ok d.
 
-  Definition grow (n : Z) (d : deque) : deque :=
-    if cap d - len d <? n then resize (cap d + n) d else d.
+  (* Grow(n): extraCap := len(d.a) - d.Len(); if extraCap < n { d.resize(len(d.a) + n) }.
+     The parameter is a Go int: the Z carried by the operation is read as the int it denotes
+     (wrap64 is the identity on every value a caller can pass); len(d.a)+n is an int sum. *)
+  Definition grow (n0 : Z) (d : deque) : result deque :=
+    let n := wrap64 n0 in
+    if cap d - len d <? n then resize (wrap64 (cap d + n)) d else Ok d.
 
+  (* Shrink(n): panics for n < 0; if len(d.a)-d.Len() > n { d.resize(d.Len() + n) }.  For huge n the
+     guard is false and nothing is allocated; when it is true d.Len()+n < len(d.a), so the int
+     sum below never wraps and the allocation is smaller than the current one (proved in
+     Proofs.v: shrink_ok) -- it is transcribed all the same. *)
   Definition shrink (n : Z) (d : deque) : result deque :=
     if n <? 0 then Panic PNeg
-    else if n <? cap d - len d then Ok (resize (len d + n) d) else Ok d.
+    else if n <? cap d - len d then resize (wrap64 (len d + n)) d else Ok d.
+
+  (* ONLY for the witness C04_grow_commit_first_refuted: the broken variant in which resize writes
+     front := 0, back := oldLen-1, gen++ before calling make.  The second component tells
+     whether the call panicked; the first is the deque a caller that recovers keeps using. *)
+  Definition grow_commit_first (n0 : Z) (d : deque) : deque * bool :=
+    let n := wrap64 n0 in
+    if cap d - len d <? n then
+      let c := wrap64 (cap d + n) in
+      let old := len d in
+      let w := window d in
+      let d1 := mkDeque (arr d) 0 (old - 1) (gen d + 1) in
+      if negb (make_ok c) then (d1, true)
+      else (mkDeque (Some (firstn (Z.to_nat c) (w ++ zrepeat zero c))) 0 (old - 1) (gen d + 1), false)
+    else (d, false).
 
   Definition with_arr (d : deque) (l : list T) : deque := mkDeque (Some l) (front d) (back d) (gen d).
 
   Definition push_front (x : T) (d : deque) : result deque :=
-    let d := maybe_expand d in
+    match maybe_expand d with Panic c => Panic c | Ok d =>
     if cap d =? 0 then Panic PDivZero else
     let f := positive_mod (front d - 1) (cap d) in
     match zset (buf d) f x with
@@ -64,16 +107,16 @@ Section Deque.
     | Some l =>
         let b := if back d =? -1 then f else back d in
         Ok (mkDeque (Some l) f b (gen d + 1))
-    end.
+    end end.
 
   Definition push_back (x : T) (d : deque) : result deque :=
-    let d := maybe_expand d in
+    match maybe_expand d with Panic c => Panic c | Ok d =>
     if cap d =? 0 then Panic PDivZero else
     let b := if back d =? -1 then front d else Z.rem (back d + 1) (cap d) in
     match zset (buf d) b x with
     | None => Panic PIndex
     | Some l => Ok (mkDeque (Some l) (front d) b (gen d + 1))
-    end.
+    end end.
 
   Definition pop_front (d : deque) : result (T * deque) :=
     let l := len d in
@@ -172,7 +215,7 @@ Section Deque.
     | OpItem i => match item i d with Ok x => (s, OVal x) | Panic _ => (s, OPanic) end
     | OpSet i x => match set i x d with Ok d' => (keep d', OUnit) | Panic _ => (s, OPanic) end
     | OpLen => (s, OInt (len d))
-    | OpGrow n => (keep (grow n d), OUnit)
+    | OpGrow n => match grow n d with Ok d' => (keep d', OUnit) | Panic _ => (s, OPanic) end
     | OpShrink n => match shrink n d with Ok d' => (keep d', OUnit) | Panic _ => (s, OPanic) end
     | OpIterate =>
         match drain (S (Z.to_nat (len d))) d (iterate d) with
